@@ -194,7 +194,10 @@ _p("C16", "proof",
    "Proved (Props/C16.v): limitSize / raftLog.slice / entries return within the budget or a single entry, for every log and storage; every MsgApp "
    "queued by maybeSendAppend respects MaxSizePerMsg or carries one entry and nothing is sent in StateSnapshot; the uncommitted-size rule "
    "(exact refusal condition, refusal changes nothing); Inflights never exceeds its size, Add on a full window is refused. The per-follower "
-   "window over a whole leadership is monitored; tracker.Inflights is proved to refine a plain list window operation by operation "
+   "window is an invariant of the node (Proofs/FlowInvProofs.v): every Progress has a window that holds at most MaxInflightMsgs messages and, under a byte "
+   "limit, all but its newest message below MaxInflightBytes; newRaft, reset and the configuration changer create such windows and every message, tick, "
+   "proposal, configuration change and snapshot restore keeps them (C16_window_invariant_step / _tick / _conf_change / _history / _start, C16_window_bounds); "
+   "the monitors watch the same on every leader; tracker.Inflights is proved to refine a plain list window operation by operation "
    "(C16_inflights_refines_window: Add panics exactly when the window is full by count or by bytes, FreeLE drops exactly the leading entries with "
    "index <= to) and every window so reached keeps all but its newest message below the byte limit (C16_window_budget); the inflights stream compares tracker.Inflights with the model and with an abstract window "
    "(count, Full, panic exactly on Add to a full window) over random Add / FreeLE / reset sequences.", [],
